@@ -26,6 +26,8 @@ func init() {
 			"named exception C12.R3: parseStrictTermArg discards nextOpcode()'s result after peekNextOpcode() succeeded on the same stream position",
 			"termination, recursion depth, absence of panics and tree well-formedness after a failed parse are not decided"},
 		Controls: []Control{
+			{Name: "relocation without the ancestor walk (F9)", File: "kernel/device/acpi/aml/parser.go", Old: "\t\t\t\tif ancestorIndex == obj.index {", New: "\t\t\t\tif ancestorIndex == InvalidIndex {", Expect: "C12.R5"},
+			{Name: "per-pass counters reset at the top of the resolve loop", File: "kernel/device/acpi/aml/parser.go", Old: "\tfor ; ; p.resolvePasses++ {\n", New: "\tfor ; ; p.resolvePasses++ {\n\t\tp.relocatedObjects = 0\n", Expect: "C12.R4"},
 			{Name: "index r.data from the parser", File: "kernel/device/acpi/aml/parser.go", Old: "func (p *Parser) scopeExit() {", New: "func (p *Parser) peekRaw(off uint32) byte { return p.r.data[off] }\n\nfunc (p *Parser) scopeExit() {", Expect: "C12.R1"},
 			{Name: "drop the SetPkgEnd bound", File: "kernel/device/acpi/aml/stream_reader.go", Old: "\tif pkgEnd > uint32(len(r.data)) {\n\t\treturn errInvalidPkgEnd\n\t}\n\n", New: "", Expect: "C12.R1"},
 			{Name: "slice header from an unchecked length (F7 again)", File: "kernel/device/acpi/aml/parser.go", Old: "\tif p.r.EOF() {\n\t\tdataLen = 0\n\t} else if remaining := p.r.pkgEnd - p.r.Offset(); dataLen > remaining {\n\t\tdataLen = remaining\n\t}\n\n", New: "", Expect: "C12.R2"},
